@@ -88,7 +88,7 @@ def gen_spec(rng, solver, df, pen, seed, coords, variant):
                 density=float(rng.choice([1.0, 0.6])), alpha_frac=float(rng.choice([0.05, 0.3])),
                 positive=bool(rng.integers(0, 2)) if pen in K.POSFLAG + ["WeightedGroupL2"] else False,
                 zero_weights=bool(rng.integers(0, 2)), knobs=knobs,
-                group_style=str(rng.choice(["contig", "perm"])), n_tasks=int(rng.integers(1, 4)),
+                group_style=str(rng.choice(["contig", "perm", "trap"])), n_tasks=int(rng.integers(1, 4)),
                 warm=str(rng.choice(["cold", "dense", "sparse"])))
 
 
